@@ -8,3 +8,108 @@ package keeper
 //@ props C07 C01
 
 //@ ensures fee_is_priceOf: result == priceCoins(raw, ctxTime(ctx), consumer, binding.ServiceName, binding.Provider)
+
+//@ func (Keeper).getMinDeposit
+//@ props C14 C04
+//@ requires price_nonneg: amt(pricing.Price, baseDenom) >= 0
+//@ ensures is_minDepositOf: result == minDepositOf(pricing)
+
+//@ func (Keeper).RefundDeposit
+//@ props C03 C05
+//@ modifies raw, bal
+//@ preserves wf: WF(raw)
+//@ preserves [C03] deposits_in_custody: depInv(raw, bal)
+//@ ensures only_when_allowed: err == NoErr ==> (let b := bindOf(old(raw), serviceName, provider) in
+//@      bindFound(old(raw), serviceName, provider) && addrEq(owner, b.Owner) && !b.Available && !coinsIsZero(b.Deposit)
+//@      && ctxTime(ctx) >= b.DisabledTime + params.ArbitrationTimeLimit + params.ComplaintRetrospect)
+//@ ensures whole_deposit_to_owner: err == NoErr ==> (let b := bindOf(old(raw), serviceName, provider) in
+//@      bal == bankMove(old(bal), modAddr("service_deposit_account"), b.Owner, b.Deposit))
+//@ ensures deposit_zeroed: err == NoErr ==> (let b := bindOf(old(raw), serviceName, provider) in
+//@      raw == old(raw)[KBind(serviceName, provider) := enc_ServiceBinding(b[Deposit := noCoins])])
+//@ ensures succeeds_when_allowed: (let b := bindOf(old(raw), serviceName, provider) in
+//@      bindFound(old(raw), serviceName, provider) && addrEq(owner, b.Owner) && !b.Available && !coinsIsZero(b.Deposit)
+//@      && ctxTime(ctx) >= b.DisabledTime + params.ArbitrationTimeLimit + params.ComplaintRetrospect
+//@      && canPay(old(bal), modAddr("service_deposit_account"), b.Deposit)) ==> err == NoErr
+//@ ensures error_changes_nothing: err != NoErr ==> raw == old(raw) && bal == old(bal)
+
+//@ func (Keeper).validateDeposit
+//@ props C20 C03
+//@ ensures one_coin: err == NoErr ==> len(deposit) == 1
+
+//@ func (Keeper).DisableServiceBinding
+//@ props C03 C05 C15
+//@ modifies raw
+//@ preserves wf: WF(raw)
+//@ preserves [C03] deposits_in_custody: depInv(raw, bal)
+//@ ensures authorised: err == NoErr ==> (let b := bindOf(old(raw), serviceName, provider) in
+//@      bindFound(old(raw), serviceName, provider) && addrEq(owner, b.Owner) && b.Available)
+//@ ensures disabled_now: err == NoErr ==> (let b := bindOf(old(raw), serviceName, provider) in
+//@      raw == old(raw)[KBind(serviceName, provider) := enc_ServiceBinding(b[Available := false][DisabledTime := ctxTime(ctx)])])
+//@ ensures error_changes_nothing: err != NoErr ==> raw == old(raw)
+
+//@ func (Keeper).EnableServiceBinding
+//@ props C03 C05 C14 C15
+//@ modifies raw, bal
+//@ preserves wf: WF(raw)
+//@ preserves [C03] deposits_in_custody: depInv(raw, bal)
+//@ requires signer_ordinary: ordinary(owner)
+//@ requires deposit_nonneg: forall d Str :: amt(deposit, d) >= 0
+//@ ensures authorised: err == NoErr ==> (let b := bindOf(old(raw), serviceName, provider) in
+//@      bindFound(old(raw), serviceName, provider) && addrEq(owner, b.Owner) && !b.Available)
+//@ ensures [C14] min_deposit_on_enable: err == NoErr ==> isAllGTE(bindOf(raw, serviceName, provider).Deposit, minDepositOf(pricingOf(raw, serviceName, provider)))
+//@ ensures [C03] owner_pays_deposit: err == NoErr ==> bal == (len(deposit) == 0 ? old(bal) : bankMove(old(bal), owner, depositAcc, deposit))
+//@ ensures [C03] record_grows_by_deposit: err == NoErr ==> (let b := bindOf(old(raw), serviceName, provider) in
+//@      raw == old(raw)[KBind(serviceName, provider) := enc_ServiceBinding(b[Deposit := (len(deposit) == 0 ? b.Deposit : coinsAdd(b.Deposit, deposit))][Available := true][DisabledTime := 0])])
+//@ ensures error_changes_nothing: err != NoErr ==> raw == old(raw) && bal == old(bal)
+
+//@ func (Keeper).AddServiceBinding
+//@ props C03 C05 C14 C15
+//@ modifies raw, bal
+//@ preserves wf: WF(raw)
+//@ preserves [C03] deposits_in_custody: depInv(raw, bal)
+//@ requires signer_ordinary: ordinary(owner)
+//@ requires deposit_nonneg: forall d Str :: amt(deposit, d) >= 0
+//@ requires [C15] valid_uint: 0 <= qos && qos <= 18446744073709551615
+//@ ensures [C15] new_and_defined: err == NoErr ==> defFound(old(raw), serviceName) && !bindFound(old(raw), serviceName, provider)
+//@ ensures [C05] provider_owner_for_life: err == NoErr ==> (ownerFound(old(raw), provider) ==> addrEq(owner, ownerOf(old(raw), provider)))
+//@ ensures [C14] min_deposit_on_bind: err == NoErr ==> isAllGTE(deposit, minDepositOf(parsePricing(pricing)))
+//@ ensures [C03] owner_pays_deposit: err == NoErr ==> bal == bankMove(old(bal), owner, depositAcc, deposit)
+//@ ensures [C15] records_written: err == NoErr ==> (let nb := mkServiceBinding(serviceName, provider, deposit, pricing, qos, options, true, 0, owner) in
+//@      let r1 := old(raw)[KBind(serviceName, provider) := enc_ServiceBinding(nb)][KOwnerBind(owner, serviceName, provider) := emptyVal][KPricing(serviceName, provider) := enc_Pricing(parsePricing(pricing))] in
+//@      raw == (len(ownerOf(old(raw), provider)) == 0 ? r1[KOwner(provider) := enc_BytesValue(mkBytesValue(owner))][KOwnerProv(owner, provider) := emptyVal] : r1))
+//@ ensures error_changes_nothing: err != NoErr ==> raw == old(raw) && bal == old(bal)
+
+//@ func (Keeper).UpdateServiceBinding
+//@ props C03 C05 C14 C15
+//@ modifies raw, bal
+//@ preserves wf: WF(raw)
+//@ requires signer_ordinary: ordinary(owner)
+//@ requires deposit_nonneg: forall d Str :: amt(deposit, d) >= 0
+//@ requires valid_uint: 0 <= qos && qos <= 18446744073709551615
+//@ ensures [C05] authorised: err == NoErr ==> bindFound(old(raw), serviceName, provider) && addrEq(owner, bindOf(old(raw), serviceName, provider).Owner)
+//@ ensures [C14] min_deposit_after_update: err == NoErr && bindOf(raw, serviceName, provider).Available && (qos != 0 || len(deposit) != 0 || len(pricing) != 0)
+//@      ==> isAllGTE(bindOf(raw, serviceName, provider).Deposit, minDepositOf(pricingOf(raw, serviceName, provider)))
+//@ ensures [C03] owner_pays_deposit: err == NoErr ==> bal == (len(deposit) == 0 ? old(bal) : bankMove(old(bal), owner, depositAcc, deposit))
+//@ ensures [C15] record_updated: err == NoErr ==> (let b := bindOf(old(raw), serviceName, provider) in
+//@      let nb := b[QoS := (qos != 0 ? qos : b.QoS)][Deposit := (len(deposit) == 0 ? b.Deposit : coinsAdd(b.Deposit, deposit))][Pricing := (len(pricing) != 0 ? pricing : b.Pricing)] in
+//@      let r1 := (len(pricing) != 0 ? old(raw)[KPricing(serviceName, provider) := enc_Pricing(parsePricing(pricing))] : old(raw)) in
+//@      raw == ((qos != 0 || len(deposit) != 0 || len(pricing) != 0) ? r1[KBind(serviceName, provider) := enc_ServiceBinding(nb)] : r1))
+//@ ensures [C03] deposits_in_custody_kept: err == NoErr && depInv(old(raw), old(bal)) ==> depInv(raw, bal)
+
+//@ func (Keeper).Slash
+//@ props C04 C03 C14
+//@ modifies raw, bal, supply
+//@ preserves wf: WF(raw)
+//@ preserves [C03] deposits_in_custody: depInv(raw, bal)
+//@ requires request_and_binding_exist: reqFound(raw, requestID) && ctxFound(raw, reqOf(raw, requestID).RequestContextId) &&
+//@      bindFound(raw, ctxOf(raw, reqOf(raw, requestID).RequestContextId).ServiceName, reqOf(raw, requestID).Provider)
+//@ ensures [C04] burns_fraction_of_current_deposit: err == NoErr ==> (let s := ctxOf(old(raw), reqOf(old(raw), requestID).RequestContextId).ServiceName in let p := reqOf(old(raw), requestID).Provider in
+//@      let b := bindOf(old(raw), s, p) in let burn := newCoins(oneCoin(baseDenom, decTrunc(decMul(decFromInt(amt(b.Deposit, baseDenom)), params.SlashFraction)))) in
+//@      bal == bankBurn(old(bal), depositAcc, burn) && supply == supplyBurn(old(supply), burn) &&
+//@      bindOf(raw, s, p).Deposit == coinsSub(b.Deposit, burn))
+//@ ensures [C04,C14] auto_disable: err == NoErr ==> (let s := ctxOf(old(raw), reqOf(old(raw), requestID).RequestContextId).ServiceName in let p := reqOf(old(raw), requestID).Provider in
+//@      let b := bindOf(old(raw), s, p) in let nb := bindOf(raw, s, p) in
+//@      ((b.Available && !isAllGTE(nb.Deposit, minDepositOf(pricingOf(old(raw), s, p)))) ? (!nb.Available && nb.DisabledTime == ctxTime(ctx)) : (nb.Available == b.Available && nb.DisabledTime == b.DisabledTime)))
+//@ ensures only_that_binding: err == NoErr ==> (let s := ctxOf(old(raw), reqOf(old(raw), requestID).RequestContextId).ServiceName in let p := reqOf(old(raw), requestID).Provider in
+//@      raw == old(raw)[KBind(s, p) := raw[KBind(s, p)]] && bindFound(raw, s, p))
+//@ ensures error_changes_nothing: err != NoErr ==> raw == old(raw) && bal == old(bal) && supply == old(supply)
